@@ -310,6 +310,8 @@ impl FeoxStore {
     }
 
     fn attach_device_file(&mut self, file: File, use_direct_io: bool) -> Result<()> {
+        #[cfg(feoxdb_verif)]
+        use crate::verif::locks as parking_lot;
         #[cfg(unix)]
         {
             use std::os::unix::io::AsRawFd;
